@@ -250,6 +250,12 @@ impl Exec {
             "probe" => {
                 self.rig.probe();
             }
+            "cli" => {
+                if self.rig.tower.is_some() {
+                    let users: Vec<i64> = op["users"].as_array().map(|a| a.iter().filter_map(|x| x.as_i64()).collect()).unwrap_or_else(|| vec![1, 2, 3]);
+                    self.rig.cli(&users);
+                }
+            }
             "poll" => self.poll(),
             "register" => {
                 if self.rig.tower.is_some() {
